@@ -47,11 +47,27 @@ type leaf struct {
 	get  func() interface{}
 	mut  func() // changes only this leaf; nil when no probe exists
 	inv  bool   // mut is an involution on a field of the object itself (applying it twice restores the leaf)
+	zero func() // puts the leaf back to the zero value of its field (0, "", no elements); nil when there is none
+	bare bool   // an element count whose mut, on an empty list, adds a record with nothing in it (its own sections left out)
+	pub  bool   // reachable through exported fields and the public enumerations of golib's tables only: a caller can assign it
 }
 
 type walker struct {
 	leaves []leaf
 	perm   int // unordered tables with two or more entries (their wire order is hash order, not state)
+	priv   int // > 0 while below an unexported field
+}
+
+// setZero gives the leaf added last its zero operation.
+func (w *walker) setZero(z func()) { w.leaves[len(w.leaves)-1].zero = z }
+
+// Entries of a table that belong to the WRITER, not to the content of the pack:
+// EventPack.Write carries uuid / escalation / status / otype as attributes under
+// four reserved keys and leaves them in the pack's own attribute map (Read takes
+// them out again).  They are not projected (callers must not use these keys);
+// changing the table keeps them where they are.
+var hiddenKeys = map[string]map[string]bool{
+	"EventPack.Attr": {pack.UUID_KEY: true, pack.ESCALATION_KEY: true, pack.STATUS_KEY: true, pack.OTYPE_KEY: true},
 }
 
 // o names the "Struct.field" that holds the leaf (typing information for the spec's rules)
@@ -63,7 +79,7 @@ func (w *walker) add(path, o string, get func() interface{}, mut func()) {
 		}
 		return x
 	}
-	w.leaves = append(w.leaves, leaf{path: path, get: g, mut: mut})
+	w.leaves = append(w.leaves, leaf{path: path, get: g, mut: mut, pub: w.priv == 0})
 }
 
 // expose makes an unexported (but addressable) field readable and settable.
@@ -167,10 +183,12 @@ func (w *walker) walk(path string, v reflect.Value, owner, fname string) {
 	case isScalarKind(t.Kind()):
 		w.add(path, o, func() interface{} { return scalarLeaf(v) }, func() { mutScalar(v) })
 		w.leaves[len(w.leaves)-1].inv = t.Kind() != reflect.String // xor 1 / not / mantissa bit; a text grows
+		w.setZero(func() { v.Set(reflect.Zero(t)) })
 		return
 	case t.Kind() == reflect.Slice && t.Elem().Kind() == reflect.Uint8:
 		w.add(path, o, func() interface{} { return obj{"k": "y", "v": core.Cp(v.Bytes()), "z": v.IsNil()} },
 			func() { v.SetBytes(append(append([]byte{}, v.Bytes()...), 0x7e)) })
+		w.setZero(func() { v.Set(reflect.Zero(t)) })
 		return
 	case t.Kind() == reflect.Slice && isScalarKind(t.Elem().Kind()):
 		w.add(path, o, func() interface{} {
@@ -192,6 +210,13 @@ func (w *walker) walk(path string, v reflect.Value, owner, fname string) {
 			mutScalar(s.Index(n - 1))
 			v.Set(s)
 		})
+		w.setZero(func() {
+			if fixedLen[o] {
+				v.Set(reflect.MakeSlice(t, v.Len(), v.Len())) // the format fixes the length: every cell 0
+			} else {
+				v.Set(reflect.Zero(t))
+			}
+		})
 		return
 	case t == tStringPtr:
 		w.add(path, o, func() interface{} {
@@ -206,6 +231,7 @@ func (w *walker) walk(path string, v reflect.Value, owner, fname string) {
 			}
 			v.Set(reflect.ValueOf(&s))
 		})
+		w.setZero(func() { s := ""; v.Set(reflect.ValueOf(&s)) })
 		return
 	case t.Kind() == reflect.Slice:
 		w.walkRecordSlice(path, v, owner, fname)
@@ -272,7 +298,13 @@ func (w *walker) walkStruct(path string, v reflect.Value) {
 			w.walkStruct(path, v.Field(i)) // the common header and embedded meters: flattened
 			continue
 		}
+		if sf.PkgPath != "" {
+			w.priv++
+		}
 		w.walk(join(path, sf.Name), v.Field(i), t.Name(), sf.Name)
+		if sf.PkgPath != "" {
+			w.priv--
+		}
 	}
 }
 
@@ -303,6 +335,8 @@ func (w *walker) walkRecordSlice(path string, v reflect.Value, owner, fname stri
 			v.Set(s)
 		}
 	})
+	w.setZero(func() { v.Set(reflect.MakeSlice(t, 0, 0)) })
+	w.leaves[len(w.leaves)-1].bare = true
 	for i := 0; i < v.Len(); i++ {
 		e := v.Index(i)
 		p := fmt.Sprintf("%s[%d]", path, i)
@@ -714,7 +748,8 @@ func keyLess(a, b interface{}) bool {
 // entries are addressed by key, so that two tables with the same entries
 // project identically.
 func (w *walker) walkContainer(path, o string, v reflect.Value, h *container) {
-	entries := func() []entry {
+	hidden := hiddenKeys[o]
+	all := func() []entry {
 		if v.IsNil() {
 			return nil
 		}
@@ -724,13 +759,55 @@ func (w *walker) walkContainer(path, o string, v reflect.Value, h *container) {
 		}
 		return es
 	}
-	w.add(path+".#", o, func() interface{} { return obj{"k": "n", "v": len(entries()), "z": v.IsNil()} }, func() {
-		es := entries()
-		if len(es) > 0 {
-			v.Set(h.rebuild(v, es[:len(es)-1]))
-		} else {
-			v.Set(h.rebuild(v, []entry{{h.newKey(0), h.newVal()}}))
+	isHidden := func(e entry) bool {
+		k, ok := e.key.(string)
+		return ok && hidden[k]
+	}
+	// the visible entries, and where the i-th of them stands among all
+	entries := func() []entry {
+		es := all()
+		if hidden == nil {
+			return es
 		}
+		var out []entry
+		for _, e := range es {
+			if !isHidden(e) {
+				out = append(out, e)
+			}
+		}
+		return out
+	}
+	at := func(i int) int {
+		if hidden == nil {
+			return i
+		}
+		for k, e := range all() {
+			if !isHidden(e) {
+				if i == 0 {
+					return k
+				}
+				i--
+			}
+		}
+		panic("walkContainer: entry index")
+	}
+	w.add(path+".#", o, func() interface{} { return obj{"k": "n", "v": len(entries()), "z": v.IsNil()} }, func() {
+		es := all()
+		if n := len(entries()); n > 0 {
+			k := at(n - 1)
+			v.Set(h.rebuild(v, append(append([]entry{}, es[:k]...), es[k+1:]...)))
+		} else {
+			v.Set(h.rebuild(v, append(append([]entry{}, es...), entry{h.newKey(0), h.newVal()})))
+		}
+	})
+	w.setZero(func() {
+		var keep []entry
+		for _, e := range all() {
+			if isHidden(e) {
+				keep = append(keep, e)
+			}
+		}
+		v.Set(h.rebuild(v, keep))
 	})
 	es := entries()
 	if !h.ordered && len(es) >= 2 {
@@ -740,13 +817,13 @@ func (w *walker) walkContainer(path, o string, v reflect.Value, h *container) {
 		i := i
 		p := fmt.Sprintf("%s[%d]", path, i)
 		setKey := func(k interface{}) {
-			cur := entries()
-			cur[i].key = k
+			cur := all()
+			cur[at(i)].key = k
 			v.Set(h.rebuild(v, cur))
 		}
 		setVal := func(x interface{}) {
-			cur := entries()
-			cur[i].val = x
+			cur := all()
+			cur[at(i)].val = x
 			v.Set(h.rebuild(v, cur))
 		}
 		switch k := es[i].key.(type) {
@@ -758,19 +835,24 @@ func (w *walker) walkContainer(path, o string, v reflect.Value, h *container) {
 				func() { setKey(entries()[i].key.(string) + "~") })
 		default:
 			// a record used as key (project+kind, project+object): its fields, changed in place
-			// (the table is only enumerated afterwards, never looked up)
+			// (the table is only enumerated afterwards, never looked up); a caller may not do that
+			w.priv++
 			w.walkStruct(p+".k", reflect.ValueOf(k).Elem())
+			w.priv--
 		}
 		switch x := es[i].val.(type) {
 		case int32:
 			w.add(p+".v", o, func() interface{} { return obj{"k": "i", "v": core.W8(int64(entries()[i].val.(int32)))} },
 				func() { setVal(entries()[i].val.(int32) ^ 1) })
+			w.setZero(func() { setVal(int32(0)) })
 		case string:
 			w.add(p+".v", o, func() interface{} { return obj{"k": "s", "v": core.Str(entries()[i].val.(string)), "z": false} },
 				func() { setVal(entries()[i].val.(string) + "~") })
+			w.setZero(func() { setVal("") })
 		case list.AnyList:
 			w.add(p+".v", o, func() interface{} { return projAnyList(entries()[i].val.(list.AnyList)) },
 				func() { setVal(mutAnyList(entries()[i].val.(list.AnyList))) })
+			w.setZero(func() { setVal(newAnyList(entries()[i].val.(list.AnyList).GetType())) })
 		case value.Value:
 			w.valueLeaf(p+".v", o, func() value.Value { x, _ := entries()[i].val.(value.Value); return x },
 				func(nv value.Value) { setVal(nv) })
